@@ -234,9 +234,9 @@ Lemma pos_nonfixed_le fixed m : pos_nonfixed fixed m <= m.
 Proof. unfold pos_nonfixed. etransitivity; [apply filter_len_le|]. now rewrite seq_length. Qed.
 (* with one common rank the positional indexing of the code is harmless *)
 Lemma tucker_fixed_constant_rank shape r fixed :
-  tucker_fixed shape (repeat r (length shape)) fixed = tucker_fixed_intended shape (repeat r (length shape)) fixed.
+  tucker_fixed_old shape (repeat r (length shape)) fixed = tucker_fixed shape (repeat r (length shape)) fixed.
 Proof.
-  unfold tucker_fixed, tucker_fixed_intended. rewrite repeat_length, Nat.eqb_refl. cbn [negb].
+  unfold tucker_fixed_old, tucker_fixed. rewrite repeat_length, Nat.eqb_refl. cbn [negb].
   assert (E : tucker_fixed_cols false shape (repeat r (length shape)) fixed = tucker_fixed_cols true shape (repeat r (length shape)) fixed).
   { unfold tucker_fixed_cols. apply map_ext_in. intros m Hm. apply in_seq in Hm. destruct (memb m fixed); [reflexivity|].
     rewrite !nth_repeat_lt; [reflexivity | lia | pose proof (pos_nonfixed_le fixed m); lia]. }
@@ -250,9 +250,9 @@ Proof.
 Qed.
 Lemma tucker_fixed_trailing shape rank fixed k :
   (forall i, memb i fixed = true <-> k <= i) ->
-  tucker_fixed shape rank fixed = tucker_fixed_intended shape rank fixed.
+  tucker_fixed_old shape rank fixed = tucker_fixed shape rank fixed.
 Proof.
-  intros Hf. unfold tucker_fixed, tucker_fixed_intended. destruct (negb (length rank =? length shape)); [reflexivity|].
+  intros Hf. unfold tucker_fixed_old, tucker_fixed. destruct (negb (length rank =? length shape)); [reflexivity|].
   assert (E : tucker_fixed_cols false shape rank fixed = tucker_fixed_cols true shape rank fixed).
   { unfold tucker_fixed_cols. apply map_ext_in. intros m Hm. destruct (memb m fixed) eqn:Em; [reflexivity|].
     rewrite pos_nonfixed_prefix; [reflexivity|]. intros i Hi. destruct (memb i fixed) eqn:Ei; [|reflexivity].
@@ -261,16 +261,16 @@ Proof.
 Qed.
 (* otherwise the returned shapes are not the requested ones *)
 Lemma tucker_fixed_misaligned :
-  tucker_fixed [4; 5; 6] [2; 3; 4] [0] = Ok [[2; 2; 3]; [4; 2]; [5; 2]; [6; 3]] /\
-  tucker_fixed_intended [4; 5; 6] [2; 3; 4] [0] = Ok [[2; 3; 4]; [4; 2]; [5; 3]; [6; 4]].
+  tucker_fixed_old [4; 5; 6] [2; 3; 4] [0] = Ok [[2; 2; 3]; [4; 2]; [5; 2]; [6; 3]] /\
+  tucker_fixed [4; 5; 6] [2; 3; 4] [0] = Ok [[2; 3; 4]; [4; 2]; [5; 3]; [6; 4]].
 Proof. split; reflexivity. Qed.
 (* the intended flow: factor m is I_m x rank_m for a fixed mode and I_m x min(rank_m, I_m) for an updated one *)
-Lemma tucker_fixed_intended_structure shape rank fixed out : tucker_fixed_intended shape rank fixed = Ok out ->
+Lemma tucker_fixed_structure shape rank fixed out : tucker_fixed shape rank fixed = Ok out ->
   exists core factors, out = core :: factors /\ length core = length shape /\ length factors = length shape /\
   forall m, m < length shape -> nth m factors [] = [nth m shape 0; nth m core 0] /\
     nth m core 0 = if memb m fixed then nth m rank 0 else Nat.min (nth m rank 0) (nth m shape 0).
 Proof.
-  unfold tucker_fixed_intended. destruct (negb (length rank =? length shape)); [discriminate|]. intros H; injection H as <-.
+  unfold tucker_fixed. destruct (negb (length rank =? length shape)); [discriminate|]. intros H; injection H as <-.
   set (cols := tucker_fixed_cols true shape rank fixed).
   assert (Hc : length cols = length shape) by (unfold cols, tucker_fixed_cols; now rewrite map_length, seq_length).
   exists cols, (map (fun p => [fst p; snd p]) (combine shape cols)). split; [reflexivity|]. split; [exact Hc|].
